@@ -1,0 +1,99 @@
+//! Off-by-default verification probes (enabled with `--cfg num_bigint_verif`).
+//!
+//! Coverage counters at the branch points that external monitors care about, a deterministic
+//! work counter for multiplication, and a logical step budget for the open-ended loops.
+//! Nothing here changes any computed value.
+
+use core::sync::atomic::{AtomicU64, Ordering::Relaxed};
+
+macro_rules! probes {
+    ($($name:ident),* $(,)?) => {
+        #[allow(missing_docs)]
+        #[derive(Copy, Clone, Debug, PartialEq, Eq)]
+        #[repr(usize)]
+        pub enum Probe { $($name),* }
+
+        /// Probe names, indexed like [`snapshot`].
+        pub const NAMES: &[&str] = &[$(stringify!($name)),*];
+    };
+}
+
+probes! {
+    // addition
+    AddAsmEntered, AddAsmCarryOut, AddTailAfterAsm, AddCarryIntoHi, AddCarryOutTop, AddSelfShorter,
+    // subtraction
+    SubAsmEntered, SubAsmBorrowOut, SubTailAfterAsm, SubBorrowIntoHi, SubRevShortOther,
+    SubRevShortOtherBorrow, SubUnderflow,
+    // multiplication
+    MulLong, MulHalfKaratsuba, MulKaratsuba, MulToom3, MulStripZeros, KaraPlus, KaraMinus,
+    KaraNoSign, ScalarMulPow2, Toom3X2Empty,
+    // division
+    DivCoreStep, DivA0LtB0, DivA0EqB0, DivRefine, DivAddBack, DivShiftZero, DivShiftNonZero,
+    DivSingleDigit,
+    // modpow
+    MontyPath, PlainPath, MontyCarry, MontyFinalSub, MontySecondReduce, MontyBaseLonger,
+    PlainSkipZeroDigit, PlainEarlyReturn,
+    // conversions
+    FromBitwiseExact, FromBitwiseInexact, FromRadixHeadFull, FromRadixHeadPartial,
+    ToBitwiseExact, ToBitwiseInexact, ToRadixBigBase, ToRadixBigBaseIter, ToRadixSmallLoop,
+    HighBitsSticky, FloatInfinity,
+    // roots
+    RootU64Path, RootF64Guess, RootScaled, RootPow2Guess, RootBitsLeN, FixClimb, FixSaturate,
+    FixDescend,
+    // gcd / modinv / rand
+    GcdLoop, ModinvLoop, RandReject,
+}
+
+const N: usize = NAMES.len();
+
+#[allow(clippy::declare_interior_mutable_const)]
+const ZERO: AtomicU64 = AtomicU64::new(0);
+static COUNTS: [AtomicU64; N] = [ZERO; N];
+static WORK: AtomicU64 = AtomicU64::new(0);
+static BUDGET: AtomicU64 = AtomicU64::new(u64::MAX);
+
+/// Count one hit of `p`.
+#[inline]
+pub fn hit(p: Probe) {
+    COUNTS[p as usize].fetch_add(1, Relaxed);
+}
+
+/// Current hit counts, indexed like [`NAMES`].
+pub fn snapshot() -> alloc::vec::Vec<u64> {
+    COUNTS.iter().map(|c| c.load(Relaxed)).collect()
+}
+
+/// Add `n` elementary digit multiplications to the work counter.
+#[inline]
+pub fn add_work(n: u64) {
+    WORK.fetch_add(n, Relaxed);
+}
+
+/// Elementary digit multiplications performed so far.
+pub fn work() -> u64 {
+    WORK.load(Relaxed)
+}
+
+/// Set the logical step budget for the hooked loops (`u64::MAX` = unlimited).
+pub fn set_budget(n: u64) {
+    BUDGET.store(n, Relaxed);
+}
+
+/// Remaining budget.
+pub fn budget() -> u64 {
+    BUDGET.load(Relaxed)
+}
+
+/// One iteration of a hooked loop; panics when the budget set by [`set_budget`] is exhausted.
+#[inline]
+pub fn tick() {
+    let b = BUDGET.load(Relaxed);
+    if b == u64::MAX {
+        return;
+    }
+    if b == 0 {
+        BUDGET.store(u64::MAX, Relaxed);
+        panic!("num_bigint_verif: step budget exhausted");
+    }
+    BUDGET.store(b - 1, Relaxed);
+}
